@@ -180,6 +180,22 @@ func pruneToRebuild
   modifies everything
   assumes result != nil && len(*result) > 0
 
+// C08/C09, the recomputation above the tiles: the rebuild ALWAYS descends to the cache height
+// limit ("we don't need to check the length of the leaves because we always have to descend"):
+// a hash already sitting in the in-memory cache for a node above the limit is from before the
+// restore and must not be taken - a node that rejoins with a warm cache would otherwise keep the
+// upper levels of its old tree. traverse may take a stored hash only AT the limit (the tiles just
+// read); the stored hashes of discarded branches are traverseThroughCache's, not checked here.
+func pruneToRebuild.traverse
+  props C09
+  requires ops != nil
+  unchecked_panics
+  modifies everything
+  at getProvidedHash assert C09/rebuild-descends-to-the-cache-limit: pos.Height == cacheHeightLimit
+func pruneToRebuild.traverseThroughCache
+  requires ops != nil
+  modifies everything
+
 // C08/C09, the loading phase of a rebuild: the tile table is read TO ITS END, every tile read is
 // put into the cache, and the reader is released. (What is then recomputed above the tiles is
 // the operation stack's, not verified.)
@@ -203,4 +219,49 @@ func AuditPath.Get
 func QueryProof.Verify
   props C02 C12
   modifies everything
+// ---- C04, bulk insertion: sibling branches share one backing array -------------------------
+// The sorted leaf list is cut into sub-slices of ONE backing array as the traversal descends
+// (Split), so a step that wrote into the list it was handed -- pushing a stored shortcut leaf
+// down by inserting it in place -- would rearrange the leaves of branches still to be visited,
+// and the digest would depend on how the events were grouped. Proved for every traversal step of
+// the bulk insertion: no leaf list that existed when the step began is written (the frame
+// "everything but the arrays behind leaf lists"); a list the step allocates itself is its own.
+func leavesList.Split
+  props C04
+  ensures len(result_0) + len(result_1) == len(l)
+  ensures arrayof(result_0) == arrayof(l) && arrayof(result_1) == arrayof(l)
+func leavesList.Split.$1
+  props C04
+  requires 0 <= i && i < len(l)
+func leavesList.InsertSorted
+  props C04
+  modifies l[*]
+  ensures fresh(result) || arrayof(result) == arrayof(l)
+func leavesList.InsertSorted.$1
+  props C04
+  requires 0 <= i && i < len(l)
+func operationsStack.PushAll
+  props C04
+  modifies *s, (*s)[*]
+func newEmptyBatchNode
+  props C04
+  ensures result != nil && fresh(result)
+// ASSUMED (cache and store are not verified): loading a batch writes no leaf list
+func batchLoader.Load
+  modifies allbut(leavesList)
+func pruneToInsertBulk.traverse
+  props C04
+  requires ops != nil
+  unchecked_panics
+  modifies allbut(leavesList)
+func pruneToInsertBulk.traverseThroughCache
+  props C04
+  requires ops != nil
+  unchecked_panics
+  modifies allbut(leavesList)
+func pruneToInsertBulk.traverseAfterCache
+  props C04
+  requires ops != nil
+  unchecked_panics
+  modifies allbut(leavesList)
 @*/
